@@ -1,6 +1,6 @@
 package main
 
-// Facts/Match.lean (C14): the pieces `match` builds its regular expression from, and how
+// Facts/Match.lean (C14): the pieces `match` builds its regular expression from, what `canon` looks at, and how
 // State.List fills the `Subscribed` field of the mailboxes it hands to getMatches.
 
 import (
@@ -60,6 +60,25 @@ func factsMatch(c *factsCtx, outdir string) error {
 	} else {
 		pieces = []string{"unknown: func match not found"}
 	}
+	// func canon: calls and index expressions (which hierarchy levels are compared with INBOX)
+	var canonPieces []string
+	if fd := findFunc(files, "canon", false); fd != nil {
+		ast.Inspect(fd.Body, func(n ast.Node) bool {
+			switch x := n.(type) {
+			case *ast.CallExpr:
+				canonPieces = append(canonPieces, "call:"+calleeQualified(x))
+			case *ast.IndexExpr:
+				canonPieces = append(canonPieces, "index:"+c.render(x))
+			case *ast.RangeStmt:
+				canonPieces = append(canonPieces, "range:"+c.render(x.X))
+			case *ast.FuncLit:
+				canonPieces = append(canonPieces, "funclit")
+			}
+			return true
+		})
+	} else {
+		canonPieces = []string{"unknown: func canon not found"}
+	}
 	var subExprs []string
 	skips := "none"
 	if fd := findFunc(files, "List", true); fd != nil {
@@ -90,6 +109,8 @@ func factsMatch(c *factsCtx, outdir string) error {
 	b.WriteString("namespace Gluon.Facts\n\n")
 	b.WriteString("/-- calls and string literals of `func match` (internal/state/match.go) in source order -/\n")
 	fmt.Fprintf(&b, "def matchPieces : List String := %s\n\n", leanStrList(pieces))
+	b.WriteString("/-- calls, index expressions, loops and closures of `func canon` in source order -/\n")
+	fmt.Fprintf(&b, "def canonPieces : List String := %s\n\n", leanStrList(canonPieces))
 	b.WriteString("/-- `Subscribed:` expressions of the `matchMailbox{…}` literals in `State.List` -/\n")
 	fmt.Fprintf(&b, "def listSubscribedExprs : List String := %s\n\n", leanStrList(subExprs))
 	b.WriteString("/-- `State.List` has `if lsub && !mbox.Subscribed { continue }` -/\n")
